@@ -1,13 +1,18 @@
 """C31 — Hail type strings round-trip (hail/python/hail/expr/types.py::__str__/_parsable_string/dtype,
 hail/python/hail/expr/type_parsing.py::type_grammar + TypeConstructor, hail/python/hail/utils/java.py::escape_parsable/
-unescape_parsable, hail/hail/src/is/hail/expr/ir/Parser.scala::IRLexer.identifier).
+unescape_parsable, hail/python/hail/utils/misc.py::escape_id/escape_str/parsable_strings/upper_hex (the functions
+hail/ir/*.py print names and string literals with), hail/hail/src/is/hail/expr/ir/Parser.scala::IRLexer.identifier/stringLiteral).
 
 Python half: the PEG grammar is regenerated (T) from `type_grammar_str` into coq/generated/C31/Gen.v and interpreted by the
 fuelled PEG interpreter of coq/theories/HailTypes/Peg.v; printers, escapes and the visitor are a hand model tied by X (the
 real str(t), _parsable_string(), hl.dtype, escape_parsable, unescape_parsable through the parsimonious shim, no JVM).
-Engine half: IRLexer.identifier is a hand MODEL (Lexer.v); the Scala cannot be executed.  The oracle decides acceptance of
-the text the REAL escape_parsable emits with an independent Python reading of the lexer rule and the
-Character.isJavaIdentifierStart/Part tables of a real JVM (when one is on PATH; stored table otherwise).
+Identifier half: escape_id's pattern + entry point (through CPython's own re parser and harness/translate/regex_sre.py, \w as
+a parameter), its quoted alternative, escape_str's per-character chain and parsable_strings are regenerated (T,
+harness/translate/escape_id.py) into coq/generated/C31/GenId.v, proved equal to the hand model IdModel.v, and run against the
+real functions and the text of real hail.ir nodes (X, harness/impl/c31_ids.py).
+Engine half: IRLexer.identifier / stringLiteral are a hand MODEL (Lexer.v, IdModel.v); the Scala cannot be executed.  The oracle
+decides acceptance of the text the REAL escape_parsable / escape_id / escape_str emit with an independent Python reading of the
+lexer rule and the Character.isJavaIdentifierStart/Part tables of a real JVM (when one is on PATH; stored table otherwise).
 """
 import glob
 import json
@@ -17,17 +22,20 @@ import re
 from harness.core import Corr, Disagreement, Failure, ImplCrash, coq_eval, nlit, listlit
 from harness.hailfe import gen as G
 from harness.hailfe import irlexer_ref
+from harness.translate import escape_id as escape_id_tr
 from harness.translate import peg_grammar
 
 ID = 'C31'
 SRC = ['hail/python/hail/expr/types.py', 'hail/python/hail/expr/type_parsing.py', 'hail/python/hail/utils/java.py',
-       'hail/hail/src/is/hail/expr/ir/Parser.scala']
+       'hail/python/hail/utils/misc.py', 'hail/python/hail/ir/ir.py', 'hail/hail/src/is/hail/expr/ir/Parser.scala']
 COQ_PROPS = 'theories/HailTypes/Props_C31.v'
 READY = True
 META = dict(
     design_ref='§5.F C31',
     technique='Coq proofs about a PEG interpreter running the grammar regenerated from type_grammar_str (induction over types, '
-              'compositional run lemmas with fuel monotonicity), about the escape functions, and about a model of the engine lexer',
+              'compositional run lemmas with fuel monotonicity), about the escape functions (escape_parsable by hand model; escape_id / '
+              'escape_str regenerated from the source, its regex through the relational re semantics of Regex.v), and about a model of the '
+              'engine lexer',
     level_text='Machine-checked theorems (Coq 8.16, closed under the global context): for every Hail type built from the 18 printable '
                'constructors with arbitrary (distinct) field names and reference-genome names, dtype(str(t)) = t under the grammar as it is '
                'in the source now, for all sufficiently large interpreter fuel and for every Unicode \\w/\\s table; escape_parsable/'
@@ -35,25 +43,47 @@ META = dict(
                'lexer MODEL: names that are escaped with printable ASCII, \\t \\n \\r and \\uXXXX only, or are bare Java identifiers, are read '
                'back exactly (_partial); the statement for all names is REFUTED: U+00E9 is sent as `\\xe9`, control characters as \\xNN and '
                'astral characters as \\UXXXXXXXX, escapes IRLexer.quotedLiteral rejects, and (given two table facts confirmed on a real re and '
-               'JVM) the bare name a² is not a Java identifier.',
-    level_note='PARTIAL: the engine side is a hand model of IRLexer.identifier/unescapeString (Scala not executable here); only identifiers are '
-               'lexed, not whole type expressions; Character.isJavaIdentifier* are parameters above ASCII. Type variables (?T, ?nat) are not '
+               'JVM) the bare name a² is not a Java identifier. Identifiers printed into IR text through hail.utils.misc.escape_id (Ref, '
+               'GetField, field lists, bound names, keys, function names): the pattern of escape_id with its entry point, its back-tick '
+               'quoting and escape_str, REGENERATED from misc.py, are proved equal to the model (for every table of \\w above ASCII); on '
+               'the lexer model every back-ticked name of BMP code points (all control characters, line breaks, quotes, back-ticks, '
+               'backslashes, non-ASCII) and every bare name of Java identifier characters is read back as exactly that name, one token, '
+               'nothing left over (_partial); every BMP string literal printed by escape_str / parsable_strings is read back by the '
+               'string-literal lexer model; REFUTED for all names: U+1F600 is written \\u1F600 (five hex digits) which the engine ACCEPTS and '
+               'reads as U+1F60 "0", and the bare name a² is not a Java identifier.',
+    level_note='PARTIAL: the engine side is a hand model of IRLexer.identifier/stringLiteral/unescapeString (Scala not executable here); only '
+               'single identifier / string-literal tokens are lexed (followed by any non-identifier delimiter), not whole type or IR expressions, '
+               'and the IR PARSER above the lexer (e.g. a field called None, keyword clashes) is out of scope; Character.isJavaIdentifier* are '
+               'parameters above ASCII. Type variables (?T, ?nat) are not '
                'modelled. parsimonious is replaced by the functional shim harness/loader/shims/parsimonious (same grammar-syntax reader '
-               'feeds the translator); hl.get_reference is served by harness-built reference genomes. The engine-half finding cannot be '
-               'replayed on the engine, only on the real escape_parsable + the lexer rule as written in Parser.scala.',
+               'feeds the translator); hl.get_reference is served by harness-built reference genomes. escape_id: the if/else skeleton, the '
+               'StringIO loop of escape_str and the two str.format calls of upper_hex are recognised syntactically by the translator (fail '
+               'closed) and their meaning (IdModel.upper_hex, flat_map over the characters) is tied by the differential run, not proved from '
+               'Python semantics; of the ~110 call sites in hail/ir only seven node kinds are rendered in the tie (the others call the same '
+               'function objects, which the tie checks by identity). The engine-half findings cannot be replayed on the engine, only on the '
+               'real escape_parsable / escape_id / escape_str + the lexer rule as written in Parser.scala.',
     partial=True,
 )
 TRUSTED = ['harness/translate/peg_grammar.py + harness/loader/shims/parsimonious (grammar-syntax reader, PEG interpreter used at run time)',
            'hand model coq/theories/HailTypes/Model.v (printers, escapes, TypeConstructor) tied by the correspondence run (X)',
-           'hand model coq/theories/HailTypes/Lexer.v of IRLexer.identifier / unescapeString (MODELLED, never executed)',
+           'hand model coq/theories/HailTypes/Lexer.v of IRLexer.identifier / unescapeString and IdModel.v lex_string of IRLexer.stringLiteral '
+           '(MODELLED, never executed)',
+           'harness/translate/escape_id.py (AST shapes of upper_hex / escape_str / escape_id / parsable_strings -> GenId.v; fail closed) + '
+           'harness/translate/regex_sre.py + harness/impl/regex_parse.py (CPython re._parser op-tree -> Regex.re; \\w -> py_word_ranges)',
+           'coq/theories/Regex/Regex.v (relational semantics of Python re matching: fullmatch / match, $ before a final newline)',
+           'hand definition IdModel.upper_hex of the two str.format calls of upper_hex (tied by X on sample points only)',
            'harness/hailfe/irlexer_ref.py (oracle-side reading of the lexer rule) and the JVM / stored Character tables',
            'CPython re (\\w, \\s), unicode_escape codec']
 ASSUMPTIONS = ['Python\'s \\w and \\s above U+007F are parameters of the theorems; the tie instantiates them per case with what `re` answers',
                'reference genomes exist for every name used (registry faked without a backend)',
-               'struct field names are distinct (they are Python dict keys)']
+               'struct field names are distinct (they are Python dict keys)',
+               'escape_id: Python\'s \\w above U+007F is a finite union of ranges of code points >= 128 (word_hi_ok); names are sequences of '
+               'code points (a str); whatever follows an identifier in IR text is not a Java identifier part (a blank or a bracket)']
 
 HEADER = ('From HailV Require Import Common.Prelude HailValues.Model HailTypes.Peg HailTypes.Model HailTypes.Lexer.\n'
           'From HailG Require C31.Gen.\nOpen Scope N_scope.\n')
+HEADER_ID = ('From HailV Require Import Common.Prelude HailValues.Model HailTypes.Peg HailTypes.Model HailTypes.Lexer '
+             'Regex.Regex HailTypes.IdModel.\nFrom HailG Require C31.GenId.\nOpen Scope N_scope.\n')
 FUEL = 400
 
 
@@ -61,6 +91,10 @@ def generate(ctx):
     text, names = peg_grammar.translate(ctx.read_repo(peg_grammar.SRC))
     ctx.write_generated('Gen.v', text)
     ctx.notes.append(f'grammar rules: {names}')
+    # identifier half: upper_hex / escape_str / escape_id / parsable_strings of hail/utils/misc.py
+    text, info = escape_id_tr.translate(ctx)
+    ctx.write_generated('GenId.v', text)
+    ctx.notes.append(f'escape_id: {info}')
 
 
 # ------------------------------------------------------------------------------------------------ cases
@@ -129,7 +163,7 @@ def _corpus(ctx):
 
 def _cases(ctx, n_types, n_names):
     rng = ctx.rng
-    cases = [c for c in _corpus(ctx)]
+    cases = [c for c in _corpus(ctx) if 'id' not in c]
     cases += [{'t': t} for t in HAND_TYPES] + [{'name': _n(s)} for s in NAMES]
     nt = sum(1 for c in cases if 't' in c)
     while nt < n_types:
@@ -150,6 +184,140 @@ def _run_impl(ctx, cases):
         if 'build_exc' in r:
             raise RuntimeError(f'harness could not build case {c}: {r["build_exc"]}')
     return res
+
+
+# ------------------------------------------------------------------------------------------------ identifiers (escape_id)
+
+# names a header line, a VCF INFO key, a pasted column name can be: simple identifiers with line terminators / white space
+# around them, every ASCII control character, quotes, back-ticks, backslashes, look-alike escapes, non-ASCII letters and
+# digits, astral characters, Java and IR keywords
+ID_NAMES = NAMES + [
+    'abc\n', 'GT\n', '_\n', 'x\n', 'abc\n\n', '\nabc', 'a\nb', 'abc\r', 'abc\r\n', 'abc\t', 'abc ', ' abc', 'abc\x0b', 'abc\x0c',
+    'abc\x1c', 'abc\x1d', 'abc\x1e', 'abc\x1f', 'abc\x85', 'abc\u2028', 'abc\u2029', 'abc\xa0', '\xe9\n', 'a\xe9\n', 'a\xb2\n',
+    'row_idx', 'info.AF', 'class', 'if', 'true', 'null', 'int', 'None', 'True', 'False', 'NA', 'inf', 'nan', '-inf', 'eval',
+    'Ref', 'a\x00', 'x\x01y', 'x\x1f', 'x\x7f', '\x08', '\x0c', '\x0b', '\x0e', '\x0f', '\x10', '\x1b', 'a"b', "a'b", 'a\\b',
+    '\\u0041', '\\`', 'a\\', '\\', '`a`', 'caf\xe9', 'na\xefve', '\u03b1_1', '\xe1', '\uff41', 'a\uff42', 'a\U0001d400',
+    '\U0001d400', 'a\U0001d7ce', 'a\u0663', 'a\u2167', 'a\u203fb', 'a\u200d', '\ufeff', 'a\ufeffb', '\uffff', '\ud7ff', '\ue000',
+    '\U0001f600', 'a\U0001f600b', '\U00010000', '\U0010ffff', '\U0001f600\n', '$a', 'a$', 'a\x7fb', '\u20aca', 'a\u20ac',
+    '\ud800', '\udfff',
+]
+ID_SUFFIXES = ['\n', '\r', '\r\n', '\t', ' ', '\x0b', '\x0c', '\x1c', '\x1d', '\x1e', '\x1f', '\x85', '\u2028', '\n\n', '\x00', '\x7f', '`', '\\', '"', '\xe9', '\xb2', '\U0001f600']
+ID_WORDS = ['a', 'abc', 'GT', '_', 'x1', '_9', 'Z', 'row', 'AF', '\xe9', 'a\xb2', 'a\u540d']
+HEX_POINTS = [0, 1, 9, 10, 15, 16, 31, 127, 128, 255, 256, 4095, 4096, 65535, 65536, 0x1F600, 0xFFFFF, 0x100000, 0x10FFFF]
+KEY_ID_ASTRAL = 'engine-misreads:escape_str-astral-\\u-more-than-4-hex-digits'
+KEY_ID_BARE_JAVA = 'engine-rejects:escape_id-bare-name-not-a-java-identifier'
+KEY_ID_BARE_NONWORD = 'engine-misreads:escape_id-bare-name-with-non-word-character'
+
+
+def gen_id_name(rng):
+    r = rng.random()
+    if r < 0.35:
+        return rng.choice(ID_NAMES)
+    if r < 0.7:
+        w = rng.choice(ID_WORDS)
+        k = rng.random()
+        if k < 0.6:
+            return w + rng.choice(ID_SUFFIXES)
+        if k < 0.8:
+            return rng.choice(ID_SUFFIXES) + w
+        return w + rng.choice(ID_SUFFIXES) + rng.choice(ID_WORDS)
+    return gen_name(rng)
+
+
+def _id_cases(ctx, n):
+    cases = [c for c in _corpus(ctx) if 'id' in c] + [{'id': _n(s)} for s in ID_NAMES]
+    while len(cases) < n:
+        cases.append({'id': _n(gen_id_name(ctx.rng))})
+    return cases
+
+
+def _run_impl_ids(ctx, cases, with_ir=True):
+    res, hexes, uses = [], [], True
+    for i in range(0, max(len(cases), 1), 400):
+        out = ctx.run_impl('c31_ids.py', {'names': [c['id'] for c in cases[i:i + 400]], 'ir': with_ir, 'hex': HEX_POINTS if i == 0 else []},
+                           timeout=300)
+        res += out['results']
+        hexes += out['hex']
+        uses = uses and out['ir_uses_misc']
+    return res, hexes, uses
+
+
+def _word_tab(r):
+    return '(fun c => existsb (N.eqb c) ' + G.coq_name(sorted(int(k) for k, v in r['classes'].items() if v)) + ')'
+
+
+def _model_ids(ctx, cases, impl):
+    exprs = []
+    for c, r in zip(cases, impl):
+        N = G.coq_name(c['id'])
+        exprs.append(f'(C31.GenId.escape_str true {N}, C31.GenId.escape_str false {N}, escape_id {_word_tab(r)} {N}, '
+                     f'C31.GenId.escape_id_quoted {N}, C31.GenId.parsable_strings [{N}; [120]; {N}])')
+    return coq_eval(ctx, HEADER_ID, exprs, shard=80, timeout=300)
+
+
+def _is_simple(name_cps, classes):
+    """[_a-zA-Z]\\w* decided by the harness: ASCII by rule, above ASCII by what the implementation's `re` answered for \\w"""
+    def word(c):
+        return (48 <= c <= 57 or 65 <= c <= 90 or c == 95 or 97 <= c <= 122) if c < 128 else bool(classes.get(str(c)))
+    return bool(name_cps) and (65 <= name_cps[0] <= 90 or name_cps[0] == 95 or 97 <= name_cps[0] <= 122) and all(word(c) for c in name_cps[1:])
+
+
+def _expected_ir(template, r):
+    return template.replace('{id}', G.uncps(r['escape_id'])).replace('{str}', '"' + G.uncps(r['esc']) + '"')
+
+
+def _holes(template, r):
+    """[(offset in the rendered text, 'identifier'|'string')] of the holes of a template"""
+    out, pos, i = [], 0, 0
+    eid, est = G.uncps(r['escape_id']), '"' + G.uncps(r['esc']) + '"'
+    while i < len(template):
+        if template.startswith('{id}', i):
+            out.append((pos, 'identifier'))
+            pos += len(eid)
+            i += 4
+        elif template.startswith('{str}', i):
+            out.append((pos, 'string'))
+            pos += len(est)
+            i += 5
+        else:
+            pos += 1
+            i += 1
+    return out
+
+
+def _correspond_ids(ctx, dis):
+    cases = _id_cases(ctx, ctx.scale(350, 4000))
+    impl, hexes, uses = _run_impl_ids(ctx, cases)
+    model = _model_ids(ctx, cases, impl)
+    if not uses:
+        dis.append(Disagreement('ir-render~escape_id', 'hail.ir.ir.escape_id/escape_str/parsable_strings', 'the functions of hail.utils.misc',
+                                'other objects'))
+    mh = coq_eval(ctx, HEADER_ID, [f'(upper_hex {nlit(n)} None, upper_hex {nlit(n)} (Some 4%nat))' for n in HEX_POINTS])
+    for (n, h1, h4), (m1, m4) in zip(hexes, mh):
+        if (h1, h4) != (m1, m4):
+            dis.append(Disagreement('upper_hex', {'n': n}, [G.uncps(m1), G.uncps(m4)], [G.uncps(h1), G.uncps(h4)]))
+    n_ir = 0
+    for c, m, r in zip(cases, model, impl):
+        if 'exc' in r:
+            dis.append(Disagreement('escape_id', c, G.uncps(m[2]), r['exc']))
+            continue
+        mbt, mpl, mid, mq, mps = m
+        for nm, mv, iv in (('escape_str(backticked=True)', mbt, r['esc_bt']), ('escape_str', mpl, r['esc']), ('escape_id', mid, r['escape_id']),
+                           ('parsable_strings', mps, r['pstrings'])):
+            if mv != iv:
+                dis.append(Disagreement(nm, c, G.uncps(mv), G.uncps(iv)))
+                break
+        else:
+            if mid != c['id'] and mid != mq:
+                dis.append(Disagreement('escape_id', c, 'hand model is neither the name nor GenId.escape_id_quoted', G.uncps(mq)))
+            if 'ir_exc' in r:
+                dis.append(Disagreement('ir-render~escape_id', c, 'renders', r['ir_exc']))
+            for kind, template, text in r.get('ir', []):
+                n_ir += 1
+                if G.uncps(text) != _expected_ir(template, r):
+                    dis.append(Disagreement('ir-render~escape_id', {'id': c['id'], 'node': kind}, _expected_ir(template, r), G.uncps(text)))
+                    break
+    return cases, impl, n_ir
 
 
 # ------------------------------------------------------------------------------------------------ model
@@ -249,15 +417,26 @@ def correspond(ctx):
                 continue
             if not mb and ('unescaped' not in r or mu is None or mu[1] != r['unescaped']):
                 dis.append(Disagreement('unescape_parsable', c, mu, r.get('unescaped')))
-    return Corr(evaluations=len(cases) * 3, distinct_nontrivial=len(distinct),
+    id_cases, id_impl, n_ir = _correspond_ids(ctx, dis)
+    return Corr(evaluations=len(cases) * 3 + len(id_cases) * 4 + n_ir, distinct_nontrivial=len(distinct),
                 rule='types: corpus + hand-written + seeded random nestings (depth <= 4) with names from a pool of edge cases and random '
                      'code points; names: the pool + random. Per type: str(t), _parsable_string() and hl.dtype(str(t)) (through the '
                      'parsimonious shim) vs show / show_parsable / dtype over the regenerated grammar (vm_compute, fuel 400); per name: '
-                     'escape_parsable / unescape_parsable. non-trivial = compound type',
+                     'escape_parsable / unescape_parsable. non-trivial = compound type. Identifiers: a pool of adversarial names (line '
+                     'terminators and white space around simple identifiers, every kind of control character, quotes, back-ticks, '
+                     'backslashes, non-ASCII letters/digits, astral characters, lone surrogates, Java/IR keywords) + seeded random: the real '
+                     'escape_id / escape_str(backticked=True) / escape_str / parsable_strings / upper_hex vs the model regenerated from '
+                     'hail/utils/misc.py (GenId, vm_compute) and the hand model the theorems are about; the text of real hail.ir nodes '
+                     '(Ref, GetField, MakeStruct, SelectFields, Let, InsertFields, Str) vs the same text with the name escaped by the '
+                     'real escape_id / escape_str',
                 samples=[{'case': c, 'impl': {k: (G.uncps(v) if k in ('str', 'parsable', 'escaped') else v) for k, v in r.items()
                                               if k != 'classes'}} for c, r in list(zip(cases, impl))[:3]],
-                disagreements=dis, histograms={'n_types': sum(1 for c in cases if 't' in c), 'n_names': sum(1 for c in cases if 'name' in c)},
-                names=['show~str(t)', 'show_parsable~_parsable_string', 'dtype~hl.dtype', 'escape_parsable', 'unescape_parsable'])
+                disagreements=dis, histograms={'n_types': sum(1 for c in cases if 't' in c), 'n_names': sum(1 for c in cases if 'name' in c),
+                                               'n_identifiers': len(id_cases), 'n_ir_nodes_rendered': n_ir,
+                                               'n_identifiers_emitted_bare': sum(1 for c, r in zip(id_cases, id_impl)
+                                                                                 if r.get('escape_id') == c['id'])},
+                names=['show~str(t)', 'show_parsable~_parsable_string', 'dtype~hl.dtype', 'escape_parsable', 'unescape_parsable',
+                       'escape_id', 'escape_str', 'escape_str(backticked=True)', 'parsable_strings', 'upper_hex', 'ir-render~escape_id'])
 
 
 # ------------------------------------------------------------------------------------------------ oracle
@@ -281,9 +460,11 @@ def _names_of(t, acc):
     return acc
 
 
-def _engine_class(name, emitted, reason):
+def _engine_class(name, emitted, reason, classes=None):
     """finding key of an engine-side rejection: which kind of emitted text the engine cannot read"""
     if not emitted.startswith('`') or emitted == name:
+        if classes is not None and not _is_simple(G.cps(name), classes):
+            return 'engine-misreads:bare-name-with-non-word-character'     # sent bare although it is not [_a-zA-Z]\\w*
         return 'engine-rejects:bare-name-not-a-java-identifier'
     m = re.search(r'\\(.)', re.sub(r'\\\\', '', emitted))
     body = emitted[1:-1]
@@ -339,23 +520,121 @@ def oracle(ctx, budget):
             continue           # lone surrogates cannot be sent to the engine at all (UTF-8)
         ok, reason = irlexer_ref.engine_reads(emitted, name, tables)
         if not ok:
-            key = _engine_class(name, emitted, reason)
+            key = _engine_class(name, emitted, reason, r.get('classes'))
             seen_names.setdefault(key, []).append(name)
             fails.append(Failure(key, f'engine lexer rule does not read {emitted!r} back as the name {name!r}: {reason}',
                                  c, {'name': c['name']}, {'emitted': r['escaped'], 'reason': reason, 'tables': tables.source}))
+    n_ids = _oracle_ids(ctx, budget, tables, fails, seen_names)
     # the two table facts used by C31_engine_rejects_bare
     facts = {'re \\w matches U+00B2': bool(re.fullmatch(r'\w', '²')), 'isJavaIdentifierPart(U+00B2)': tables.is_part(0xb2)}
     ctx.notes.append(f'table facts: {facts}')
     fails.sort(key=lambda f: len(json.dumps(f.case)))
-    return fails, {'evaluations': len(cases), 'distinct_nontrivial': len({json.dumps(c) for c in cases}),
+    return fails, {'evaluations': len(cases) + n_ids, 'distinct_nontrivial': len({json.dumps(c) for c in cases}),
                    'rule': 'oracle: hl.dtype(str(t)) == t; unescape(escape(s)) == s; the emitted identifier read with the engine lexer rule '
-                           f'({tables.source}) gives the same name',
+                           f'({tables.source}) gives the same name; the same for escape_id(name) followed by a blank / a bracket, for the '
+                           'string literal "escape_str(name)", and for the identifier / string tokens inside the text of real hail.ir nodes',
                    'histograms': {'engine_rejections': {k: len(v) for k, v in seen_names.items()}, 'table_facts': facts, 'jvm': note},
                    'samples': [{'engine_rejected': {k: v[:4] for k, v in seen_names.items()}}]}
 
 
+def _id_class(c, r, emitted):
+    """finding key of a name printed through escape_id that the engine does not read back"""
+    name = c['id']
+    if emitted == G.uncps(name):                                    # sent bare
+        return KEY_ID_BARE_JAVA if _is_simple(name, r.get('classes', {})) else KEY_ID_BARE_NONWORD
+    if any(cp > 0xffff for cp in name):
+        return KEY_ID_ASTRAL
+    return 'engine-rejects:escape_id-quoted-name'
+
+
+def _oracle_ids(ctx, budget, tables, fails, seen_names):
+    """escape_id / escape_str / real IR text on the IMPLEMENTATION alone, read with the engine lexer rule"""
+    cases = _id_cases(ctx, ctx.scale(500, 5000) * budget)
+    impl, _, _ = _run_impl_ids(ctx, cases)
+    for c, r in zip(cases, impl):
+        name = G.uncps(c['id'])
+        if 'exc' in r:
+            e = r['exc']
+            fails.append(Failure(f'escape_id-raises:{e["exc"]}', f'escape_id/escape_str raised {e["exc"]}: {e["msg"]}', c, None, e))
+            continue
+        if 'ir_exc' in r:
+            e = r['ir_exc']
+            fails.append(Failure(f'ir-render-raises:{e["exc"]}', f'rendering an IR node with this name raised {e["exc"]}: {e["msg"]}', c, None, e))
+            continue
+        if any(0xd800 <= cp <= 0xdfff for cp in c['id']):
+            continue           # lone surrogates cannot be sent to the engine at all (UTF-8)
+        emitted = G.uncps(r['escape_id'])
+        bad = None
+        for delim in (' ', ')'):
+            ok, reason = irlexer_ref.engine_reads(emitted, name, tables, delim)
+            if not ok:
+                bad = (_id_class(c, r, emitted), f'escape_id: engine lexer rule does not read {emitted!r} back as the name {name!r}: {reason}',
+                       {'emitted': r['escape_id'], 'reason': reason})
+                break
+        if bad is None:
+            lit = '"' + G.uncps(r['esc']) + '"'
+            ok, reason = irlexer_ref.engine_reads_at(lit + ' ', 0, name, tables, 'string')
+            if ok and irlexer_ref.lex_string(irlexer_ref.utf16_units(lit + ' '))[1] != len(irlexer_ref.utf16_units(lit)):
+                ok, reason = False, 'string token does not end at the closing quote'
+            if not ok:
+                key = KEY_ID_ASTRAL if any(cp > 0xffff for cp in c['id']) else 'engine-rejects:escape_str-string-literal'
+                bad = (key, f'escape_str: engine lexer rule does not read the string literal {lit!r} back as {name!r}: {reason}',
+                       {'emitted': G.cps(lit), 'reason': reason})
+        if bad is None:
+            for kind, template, text in r.get('ir', []):
+                text = G.uncps(text)
+                if text != _expected_ir(template, r):
+                    bad = (f'ir-render:{kind}-does-not-carry-the-escaped-name', f'str(hail.ir.{kind}(...)) does not carry the name as '
+                           f'escape_id / escape_str print it: {text!r}', {'text': G.cps(text), 'expected': _expected_ir(template, r)})
+                    break
+                for off, tk in _holes(template, r):
+                    ok, reason = irlexer_ref.engine_reads_at(text, off, name, tables, tk)
+                    if not ok:
+                        bad = (_id_class(c, r, emitted) if tk == 'identifier' else KEY_ID_ASTRAL if any(cp > 0xffff for cp in c['id'])
+                               else 'engine-rejects:escape_str-string-literal',
+                               f'IR text of hail.ir.{kind}: {text!r}: the {tk} token at offset {off} is not read back as {name!r}: {reason}',
+                               {'text': G.cps(text), 'reason': reason})
+                        break
+                if bad:
+                    break
+        if bad:
+            seen_names.setdefault(bad[0], []).append(name)
+            fails.append(Failure(bad[0], bad[1], c, {'name': c['id']}, dict(bad[2], tables=tables.source)))
+    return len(cases)
+
+
+def _replay_id(ctx, case):
+    r = _run_impl_ids(ctx, [case])[0][0]
+    out = {'case': case, 'impl': {k: (G.uncps(v) if k in ('escape_id', 'esc_bt', 'esc', 'pstrings') else
+                                      [[a, G.uncps(x)] for a, _, x in v] if k == 'ir' else v) for k, v in r.items()}}
+    if 'escape_id' in r:
+        tables, note = irlexer_ref.load_tables(ctx.work)
+        name, emitted = G.uncps(case['id']), G.uncps(r['escape_id'])
+        ok, reason = irlexer_ref.engine_reads(emitted, name, tables, ' ')
+        out['engine_lexer_rule'] = {'accepts_and_same_name': ok, 'reason': reason, 'tables': note}
+        try:
+            val, used = irlexer_ref.lex_identifier(irlexer_ref.utf16_units(emitted + ' '), tables)
+            out['engine_lexer_rule']['token'] = {'value_utf16_units': val, 'units_consumed': used, 'units_emitted': len(irlexer_ref.utf16_units(emitted))}
+        except irlexer_ref.Reject as e:
+            out['engine_lexer_rule']['token'] = f'rejected: {e}'
+    try:
+        generate(ctx)
+        m = _model_ids(ctx, [case], [r])[0]
+        N = G.coq_name(case['id'])
+        e = coq_eval(ctx, HEADER_ID, [f'lex_identifier (fun _ => false) (fun _ => false) (utf16 (escape_id {_word_tab(r)} {N}) ++ [32])',
+                                      f'lex_string (utf16 (str_literal {N}) ++ [32])'])
+        out['model'] = {'GenId.escape_str true': G.uncps(m[0]), 'GenId.escape_str false': G.uncps(m[1]), 'escape_id': G.uncps(m[2]),
+                        'engine_lexer_model(no non-ASCII identifier chars) on escape_id ++ " "': e[0],
+                        'engine_string_lexer_model on the string literal': e[1]}
+    except Exception as ex:  # noqa: BLE001
+        out['model'] = f'model evaluation failed: {ex}'
+    return out
+
+
 def replay(ctx, doc):
     case = doc['case']
+    if 'id' in case:
+        return _replay_id(ctx, case)
     if 'import' in case:
         try:
             _run_impl(ctx, [])
